@@ -122,6 +122,16 @@ def c09(tier, seed):
     ]
 
 
+def c20(tier, seed):
+    q = tier == "quick"
+    return [
+        MC("Gen_Paths", dict(Groups="={}"), invariants=["AllocBound", "RoundTrip", "NumKeysNamed"], label="MC_Paths/rule"),
+        GEN("Gen_Paths", {}, "paths", label="Gen_Paths/spellings", min_cases=1000),
+        TRACE("Trace_Paths", "paths", n=3000 if q else 60000, label="Trace_Paths/random-literals",
+              trace_file="trace_paths.ndjson"),
+    ]
+
+
 ASSUME_COMMON = [
     "the public-API observation (Unpack into map and slice, canonicalised) reads the abstract state faithfully",
     "TLC, the JVM, the Go toolchain and runtime",
@@ -141,6 +151,12 @@ NORM_RULE = ("Gen_Normalize: every ordered input of <= 3 entries over 5 overlapp
              "non-trivial = at least two entries; distinct by input")
 
 CHECKS = {
+    "C20": dict(stages=c20, family="paths",
+                rule="Gen_Paths: 42 spellings (decimal, signs, 0x/0o/0b, leading zeros, underscores, +-2^63, 2^63, 2^64, near-numeric, "
+                     "empty) x MaxIdx {0,2,5,1024} x EnableNumKeys x position (single, first, middle, last), each as map key, struct "
+                     "tag and setter name with getter/Has/Remove read-back; Trace_Paths: random literals in random syntax. "
+                     "non-trivial: every case (each decides index-vs-name); distinct by (key, MaxIdx, EnableNumKeys)",
+                assumptions=ASSUME_COMMON + ["strconv.ParseInt(s,0,64) is the definition of 'integer literal'; the spec's spelling table is checked against it at start-up"]),
     "C05": dict(stages=c05, family="norm", rule=NORM_RULE, assumptions=ASSUME_COMMON),
     "C09": dict(stages=c09, family="norm", rule=NORM_RULE + "; every map-built case is repeated K times (8 quick / 32 thorough) "
                 "with the Go maps rebuilt in a different insertion order and all outcomes compared; merges likewise",
